@@ -24,6 +24,9 @@ Python → Lean
 * `_detect_compressor(fileobj)`      : `detect`
 * `dump` / `load` end to end, with `pickle`, `unpickle` and the codecs as parameters : `dump`, `load` over `Env`
 * `_detect_compressor` / `load` on an open file object whose cursor is at `pos` : `sniff`, `loadAt`
+* several `dump` / `load` calls in one process, module globals re-bound in between (`importlib.reload`, a class
+  statement run again, assignment) : `Proc` (files + bindings), `HOp`, `hstep`, `hfinal`, `hreplies`; what CPython's
+  pickle does under given bindings is the parameter `envOf : B → Env Obj` (`histEnv`: the instance the driver runs)
 
 Import-free (but for the generated table), total, computable.
 -/
@@ -316,5 +319,83 @@ def loadAt {Obj : Type} (E : Env Obj) (peekable : Bool) (peeked : Nat) (_fileNam
   | (.compat, _) => none
   | (.method n, p) => (E.decompress n (file.drop p)).bind E.unpickle
   | (.notCompressed, p) => E.unpickle (file.drop p)
+
+/-! ### HISTORIES: several `dump` / `load` calls in one process, the process' bindings changing in between
+
+What CPython's unpickler does with a pickle depends on the process: a class or function is pickled BY REFERENCE
+(`module`, `qualified name`) and `find_class` resolves the reference against `sys.modules` when the file is LOADED.
+`B` is that part of the process (the bindings of the module globals, re-bound by `importlib.reload`, by running a
+class statement again, by assignment); `envOf b` is what `pickle` / `unpickle` / the codecs do under bindings `b`.
+`joblib.dump` / `joblib.load` themselves keep NO state between calls (`NumpyPickler` / `NumpyUnpickler` objects, their
+memo and the file objects are created per call; `_COMPRESSORS` is only read): the state of the process as far as
+`dump`/`load` are concerned is the files and the bindings.  `slot` is where the bytes are kept (the path, or the
+`io.BytesIO` object); it is separate from `filename : Target`, which is what `dump` looks at (extension, kind). -/
+
+structure Proc (B : Type) where
+  /-- slot ↦ content; the first entry for a slot is the current one -/
+  files : List (String × Bytes)
+  bindings : B
+
+inductive HOp (B Obj : Type)
+  | dump (slot : String) (value : Obj) (compress : CompressArg) (filename : Target) (protocol : Nat)
+  | load (slot : String)
+  /-- a module global is re-bound -/
+  | rebind (f : B → B)
+
+inductive HReply (Obj : Type)
+  | dumped
+  /-- `dump` raised before anything was opened: the slot keeps what it held -/
+  | dumpErr (e : Err)
+  | loaded (r : Option Obj)
+  | noFile
+  | rebound
+deriving DecidableEq, Repr
+
+def hstep {B Obj : Type} (envOf : B → Env Obj) (s : Proc B) : HOp B Obj → Proc B × HReply Obj
+  | .dump slot value compress filename protocol =>
+    match dump (envOf s.bindings) value compress filename protocol with
+    | .error e => (s, .dumpErr e)
+    | .ok b => ({ s with files := (slot, b) :: s.files }, .dumped)
+  | .load slot =>
+    match s.files.lookup slot with
+    | none => (s, .noFile)
+    | some b => (s, .loaded (load (envOf s.bindings) slot b))
+  | .rebind f => ({ s with bindings := f s.bindings }, .rebound)
+
+/-- The state after a history. -/
+def hfinal {B Obj : Type} (envOf : B → Env Obj) : Proc B → List (HOp B Obj) → Proc B
+  | s, [] => s
+  | s, op :: ops => hfinal envOf (hstep envOf s op).1 ops
+
+/-- The replies of a history, one per operation. -/
+def hreplies {B Obj : Type} (envOf : B → Env Obj) : Proc B → List (HOp B Obj) → List (HReply Obj)
+  | _, [] => []
+  | s, op :: ops => (hstep envOf s op).2 :: hreplies envOf (hstep envOf s op).1 ops
+
+/-- Does the operation (possibly) write this slot? -/
+def HOp.writes {B Obj : Type} (slot : String) : HOp B Obj → Bool
+  | .dump s _ _ _ _ => s == slot
+  | _ => false
+
+/-- The bindings after the re-bindings of a history, from `b`. -/
+def rebindsOf {B Obj : Type} : List (HOp B Obj) → B → B
+  | [], b => b
+  | .rebind f :: ops, b => rebindsOf ops (f b)
+  | _ :: ops, b => rebindsOf ops b
+
+/-! A concrete instance (used by the driver and by the witnesses): an object is an instance of the module global
+number `g`, carrying payload `id`; `ver` is WHICH binding of that global its class is (never pickled: the class goes
+into the file by reference). The bindings `b : List (Nat × Nat)` give the current version of every global. -/
+
+abbrev HObj := Nat × Nat × Nat
+
+def histEnv (b : List (Nat × Nat)) : Env HObj where
+  pickle := fun p x => (if 2 ≤ p then [pickleProtoOpcode, p] else [78, 46]) ++ [x.1, x.2.2]
+  unpickle := fun bs =>
+    match bs.drop 2 with
+    | [g, id] => (b.lookup g).map (fun v => (g, v, id))   -- `find_class`: the CURRENT binding
+    | _ => none
+  compress := fun n _ bs => ((lookup n).map (·.pfx)).getD [] ++ bs
+  decompress := fun n bs => some (bs.drop (((lookup n).map (·.pfx)).getD []).length)
 
 end JoblibModel.DumpLoad
